@@ -36,6 +36,7 @@ class Check:
     notes: List[str] = field(default_factory=list)
     errors: List[str] = field(default_factory=list)  # analysis errors (exit 2)
     started: float = field(default_factory=time.time)
+    _seen: Dict[Any, int] = field(default_factory=dict)
 
     def rule(self, rid: str, text: str, floor: int = 1) -> None:
         self.rules[rid] = text
@@ -51,6 +52,11 @@ class Check:
         witness: Any = None,
         nontrivial: bool = True,
     ) -> bool:
+        # construct keys must be unique per rule: known findings are matched on them
+        n = self._seen.get((rule, key), 0) + 1
+        self._seen[(rule, key)] = n
+        if n > 1:
+            key = f"{key}#{n}"
         self.obligations.append(Obligation(rule, key, bool(ok), site, reason, witness, nontrivial))
         return bool(ok)
 
